@@ -425,7 +425,10 @@ def withDownload (y : YModule) (buildDir relpath : String) (m : Module) : Module
   match y.download with
   | some d =>
     { m with download := y.download, isBuildDep := true,
-             buildDepFiles := some (setInsert (m.buildDepFiles.getD []) (d.tagfile (d.srcdir buildDir relpath m.name))) }
+             -- the tag file lies in the module's source directory: an explicit `srcdir:` moves it along (fix 137176e; before, the
+             -- default download directory's tag file was exported while the download statement wrote into `srcdir`)
+             buildDepFiles := some (setInsert (m.buildDepFiles.getD [])
+               (d.tagfile (y.srcdir.getD (d.srcdir buildDir relpath m.name)))) }
   | none => { m with download := none }
 
 /-- the source directory unless `srcdir:` is given: the download directory, or the lazefile's -/
